@@ -121,83 +121,96 @@ def _pair_ok(f, ptr, ln):
                 c = strip(n["kids"][1])
                 if call_args(c) and base_decl(call_args(c)[0]) == base_decl(ptr):
                     return True, "length returned by %s which filled the same buffer" % c.get("callee")
+        for n in walk(f.body):
+            if n["k"] == "DeclStmt":
+                for d in n["decls"]:
+                    if d["name"] == ln.get("name") and d.get("init") is not None and is_call(d["init"]):
+                        c = strip(d["init"])
+                        if call_args(c) and base_decl(call_args(c)[0]) == base_decl(ptr):
+                            return True, "length returned by %s which filled the same buffer" % c.get("callee")
         # parameter pair (ptr param i, len param i+1)
         if ln.get("dk") == "param" and ptr["k"] == "DeclRefExpr" and ptr.get("dk") == "param" and ln["idx"] == ptr["idx"] + 1:
             return True, "parameter pair"
     return False, "unrecognised pairing"
 
 
+def _lin(v):
+    t, c = linsum(APE.vstr(v) if not isinstance(v, str) else v, tags=True)
+    return t, c
+
+
+def _sub(a, b):
+    ta, ca = a
+    tb, cb = b
+    out = dict(ta)
+    for k, v in tb.items():
+        out[k] = out.get(k, 0) - v
+    return {k: v for k, v in out.items() if v}, ca - cb
+
+
+def _addl(a, b):
+    ta, ca = a
+    tb, cb = b
+    out = dict(ta)
+    for k, v in tb.items():
+        out[k] = out.get(k, 0) + v
+    return {k: v for k, v in out.items() if v}, ca + cb
+
+
 def _check_path(res, wf, p):
-    cur_b, cur_s = ("s", wf.params[1]["name"]), ("s", wf.params[2]["name"])
-    pname_b, pname_s = wf.params[1]["name"], wf.params[2]["name"]
+    """Value-based: whatever the loop's variables are called and wherever the single write(2) sits (the function itself or a
+    helper analysed as part of it), at every write  cursor + remaining == buf + size,  after n > 0 the next cursor is the old
+    one plus that n, an EINTR retry repeats the same cursor, any other n <= 0 never returns, and the function returns only
+    when the path implies that nothing remains."""
+    BUF, SIZE = wf.params[1]["name"], wf.params[2]["name"]
+    total = ({BUF: 1, SIZE: 1}, 0)
     evs = [e for e in p.events if e.kind != "branch"]
-    i = 0
-    nwrites = 0
-    while i < len(evs):
-        e = evs[i]
-        if e.kind == "call" and e.a == "write":
-            nwrites += 1
-            s = site(wf, "write#%d" % nwrites)
-            res.check(e.b[1] == cur_b and e.b[2] == cur_s, "C20.R2", s,
-                      "write is called with the current cursor and remaining size",
-                      "write called with (%s, %s), expected (%s, %s)" % (APE.vstr(e.b[1]), APE.vstr(e.b[2]),
-                                                                          APE.vstr(cur_b), APE.vstr(cur_s)),
-                      wf.loc(e.node), p.describe(wf))
-            r = e.c
-            cons = p.cons.get((APE.vstr(r), "#0"))
-            # events until the next write / end
-            j = i + 1
-            seg = []
-            while j < len(evs) and not (evs[j].kind == "call" and evs[j].a == "write"):
-                seg.append(evs[j])
-                j += 1
-            last = j >= len(evs)
-            sb = [x for x in seg if x.kind == "store" and x.a == pname_b]
-            ss = [x for x in seg if x.kind == "store" and x.a == pname_s]
-            if cons is None:
-                if last and p.end == "cut":
-                    pass
-                else:
-                    res.bad("C20.R2", s, "result of write is not examined before it is used", wf.loc(e.node), p.describe(wf))
-            elif cons <= frozenset((GT,)):
-                wb = ("s", "(%s+%s)" % (APE.vstr(cur_b), APE.vstr(r)))
-                ws = ("s", "(%s-%s)" % (APE.vstr(cur_s), APE.vstr(r)))
-                if last and p.end == "cut" and not sb and not ss:
-                    pass
-                else:
-                    okb = len(sb) == 1 and sb[0].b == wb
-                    oks = len(ss) == 1 and ss[0].b == ws
-                    res.check(okb and oks, "C20.R2", s + ":advance",
-                              "n > 0: cursor += n and remaining -= n with the same n, once each",
-                              "after a successful partial write the cursor/remaining are not both advanced by the "
-                              "written count (cursor stores %s, remaining stores %s)" % ([APE.vstr(x.b) for x in sb], [APE.vstr(x.b) for x in ss]),
-                              wf.loc(e.node), p.describe(wf))
-                    if okb and oks:
-                        cur_b, cur_s = wb, ws
-                    else:
-                        return
-            else:
-                # n <= 0 somewhere in the constraint
-                eintr = False
-                for (a, b), v in p.cons.items():
-                    if "__errno_location" in a and v == frozenset((EQ,)) and cons <= frozenset((LT,)):
-                        nodes = p.atoms.get((a, b))
-                        eintr = True
-                if eintr:
-                    res.check(not sb and not ss, "C20.R2", s + ":eintr",
-                              "n < 0 and errno == EINTR: retried with cursor and remaining untouched",
-                              "EINTR retry path modifies cursor or remaining", wf.loc(e.node), p.describe(wf))
-                    if last and p.end not in ("cut",):
-                        res.bad("C20.R2", s + ":eintr", "EINTR path leaves the loop (%s)" % p.end, wf.loc(e.node), p.describe(wf))
-                else:
-                    res.check(last and p.end == "noreturn", "C20.R2", s + ":error",
-                              "n <= 0 (not EINTR) reaches a NORETURN block",
-                              "a failed write (n <= 0) does not stop the process: path ends with '%s'" % p.end,
-                              wf.loc(e.node), p.describe(wf))
+    writes = [e for e in evs if e.kind == "call" and e.a == "write"]
+    cur = ({BUF: 1}, 0)          # the cursor the next write must use
+    for k, e in enumerate(writes):
+        s = site(wf, "write#%d" % (k + 1))
+        C, R = _lin(e.b[1]), _lin(e.b[2])
+        res.check(_sub(C, cur) == ({}, 0) and _sub(_addl(C, R), total) == ({}, 0), "C20.R2", s,
+                  "write is called with the current cursor and exactly what remains (cursor + remaining = buf + size)",
+                  "write called with (%s, %s): not the current cursor %s with everything that remains" % (APE.vstr(e.b[1]), APE.vstr(e.b[2]), cur),
+                  wf.loc(e.node), p.describe(wf))
+        if _sub(C, cur) != ({}, 0):
+            return
+        r = e.c
+        cons = p.cons.get((APE.vstr(r), "#0"))
+        last = k == len(writes) - 1
+        nxt = writes[k + 1] if not last else None
+        if cons is None:
+            if not (last and p.end == "cut"):
+                res.bad("C20.R2", s, "result of write is not examined before it is used", wf.loc(e.node), p.describe(wf))
+            return
+        if cons <= frozenset((GT,)):
+            adv = _addl(cur, ({APE.vstr(r): 1}, 0))
+            if nxt is not None:
+                Cn = _lin(nxt.b[1])
+                res.check(_sub(Cn, adv) == ({}, 0), "C20.R2", s + ":advance",
+                          "n > 0: the next write starts n bytes further, with n bytes less",
+                          "after a successful partial write the next write starts at %s, not at the old cursor plus the count written" % APE.vstr(nxt.b[1]),
+                          wf.loc(e.node), p.describe(wf))
+                if _sub(Cn, adv) != ({}, 0):
                     return
-            i = j
-            continue
-        i += 1
+            cur = adv
+        else:
+            eintr = any("__errno_location" in a and v == frozenset((EQ,)) and cons <= frozenset((LT,)) for (a, b), v in p.cons.items())
+            if eintr:
+                if nxt is not None:
+                    res.check(_sub(_lin(nxt.b[1]), cur) == ({}, 0) and _sub(_lin(nxt.b[2]), R) == ({}, 0), "C20.R2", s + ":eintr",
+                              "n < 0 and errno == EINTR: retried with the same cursor and remaining size",
+                              "EINTR retry path changes the cursor or the remaining size", wf.loc(e.node), p.describe(wf))
+                elif p.end not in ("cut",):
+                    res.bad("C20.R2", s + ":eintr", "EINTR path leaves the loop (%s)" % p.end, wf.loc(e.node), p.describe(wf))
+                    return
+            else:
+                res.check(last and p.end == "noreturn", "C20.R2", s + ":error",
+                          "n <= 0 (not EINTR) reaches a NORETURN block",
+                          "a failed write (n <= 0) does not stop the process: path ends with '%s'" % p.end,
+                          wf.loc(e.node), p.describe(wf))
+                return
     if p.end == "exit" and p.ret() is not None:
         # R4: what the function reports to its caller must not depend on how write(2) fragmented the data
         rv = APE.vstr(p.ret())
@@ -206,8 +219,19 @@ def _check_path(res, wf, p):
                   "the write loop returns %s, a quantity that depends on the size of the last write(2) call: after a short write callers account the wrong number of bytes "
                   "(offsets and trailer fields differ from the unfragmented run)" % rv[:80], wf.loc(p.events[-1].node), p.describe(wf))
     if p.end == "exit":
-        c = p.cons.get((APE.vstr(cur_s), "#0"))
-        res.check(c == frozenset((EQ,)), "C20.R2", site(wf, "return"),
-                  "normal return only when remaining == 0",
-                  "function returns while remaining size is not known to be 0 (constraint %s)" % (sorted(c) if c else None),
+        remaining = _sub(total, cur)
+        neg = ({k: -v for k, v in remaining[0].items()}, -remaining[1])
+        done = False
+        for (a, b), v in p.cons.items():
+            if v != frozenset((EQ,)):
+                continue
+            try:
+                d = _sub(_lin(a), _lin(b))
+            except Exception:
+                continue
+            if d == remaining or d == neg:
+                done = True
+        res.check(done, "C20.R2", site(wf, "return"),
+                  "normal return only when the path implies that nothing remains (buf + size - cursor == 0)",
+                  "function returns while %s bytes are not known to be written" % (remaining,),
                   None, p.describe(wf))
